@@ -542,7 +542,7 @@ func (h *harness) decoders(c *blockCase, raw []byte, be string) {
 	fullTx, err1 := bt.Transactions().All()
 	fullRc, err2 := bt.Receipts().All()
 	if err1 != nil || err2 != nil {
-		bad("full decoder", fmt.Sprintf(": errors %v / %v", err1, err2))
+		bad("full decoder", ": error "+errors.Join(err1, err2).Error())
 		return
 	}
 	var (
